@@ -2,6 +2,7 @@ package schedsim
 
 import (
 	"context"
+	"encoding/json"
 	"fmt"
 	"os"
 	"sort"
@@ -70,14 +71,20 @@ type labels map[string]int
 
 type model struct {
 	prevWorkerAttempt map[string]string
-	w        *world
-	tasks    []*taskModel
-	byOp     map[string]*taskModel
-	ops      map[string]*opModel
-	prev     *scheduler.VerifSnapshot
-	labels   labels
-	startAt  time.Time
-	autoTick bool
+	// Model-owned operator state (C05): the drains of every size class
+	// queue (queue name -> pattern JSON -> pattern) and the workers that a
+	// TerminateWorkers call found registered (queue name + worker key).
+	drains        map[string]map[string]map[string]string
+	terminating   map[string]bool
+	drainsTouched bool
+	w             *world
+	tasks         []*taskModel
+	byOp          map[string]*taskModel
+	ops           map[string]*opModel
+	prev          *scheduler.VerifSnapshot
+	labels        labels
+	startAt       time.Time
+	autoTick      bool
 	// A lock-taking call was made at the current instant right before
 	// this observation, so every due cleanup must have run.
 	justTicked bool
@@ -119,6 +126,7 @@ func newModel(w *world) *model {
 		w: w, byOp: map[string]*taskModel{}, ops: map[string]*opModel{}, labels: labels{}, startAt: w.clk.Now(),
 		seenMsgs: map[int]int{}, streamOp: map[int]string{}, streamDone: map[int]bool{}, streamEnded: map[int]bool{},
 		execExpect: map[int]*execExpectation{}, diagnostics: map[string]bool{},
+		drains: map[string]map[string]map[string]string{}, terminating: map[string]bool{},
 	}
 }
 
@@ -132,6 +140,7 @@ func (m *model) pre() {
 	m.listQueues()
 	m.justTicked = true
 	synctest.Wait()
+	m.compareDrainListing()
 	m.observe()
 }
 
@@ -310,12 +319,124 @@ func (m *model) onKillQueue(wk *workerSim, st *status_pb.Status) {
 	}
 }
 
+func patternKey(pat map[string]string) string {
+	b, _ := json.Marshal(pat) // encoding/json sorts map keys
+	return string(b)
+}
+
 func (m *model) onDrain(wk *workerSim, pat map[string]string, add bool) {
+	qn := m.queueNameOf(wk)
 	if add {
 		m.label("drain_added")
+		if m.drains[qn] == nil {
+			m.drains[qn] = map[string]map[string]string{}
+		}
+		m.drains[qn][patternKey(pat)] = pat
+		m.drainsTouched = true
 	} else {
+		m.drainsTouched = true
 		m.label("drain_removed")
+		if _, ok := m.drains[qn][patternKey(pat)]; ok {
+			m.label("drain_removed_existing")
+		}
+		delete(m.drains[qn], patternKey(pat))
 	}
+}
+
+// modelDrained reports whether an active drain of the worker's queue
+// matches the worker, according to the AddDrain/RemoveDrain calls that
+// succeeded (not according to the scheduler's own bookkeeping).
+func (m *model) modelDrained(wk *workerSim) (map[string]string, bool) {
+	keys := make([]string, 0, len(m.drains[m.queueNameOf(wk)]))
+	for k := range m.drains[m.queueNameOf(wk)] {
+		keys = append(keys, k)
+	}
+	sort.Strings(keys)
+	for _, k := range keys {
+		if pat := m.drains[m.queueNameOf(wk)][k]; workerMatches(wk.id, pat) {
+			return pat, true
+		}
+	}
+	return nil, false
+}
+
+func (m *model) modelTerminating(wk *workerSim) bool {
+	return m.terminating[m.queueNameOf(wk)+"\x00"+workerKeyOf(wk)]
+}
+
+// checkOperatorState compares the scheduler's drains and terminating
+// flags with the model's (both directions), and forgets what belonged
+// to size class queues and workers that no longer exist.
+func (m *model) checkOperatorState(snap *scheduler.VerifSnapshot) {
+	w := m.w
+	existing := map[string]bool{}
+	for _, i := range snap.Invocations {
+		if len(i.IDs) == 0 {
+			existing[i.QueueName] = true
+		}
+	}
+	for qn := range m.drains {
+		if !existing[qn] {
+			delete(m.drains, qn)
+		}
+	}
+	present := map[string]*scheduler.VerifWorker{}
+	for _, vw := range snap.Workers {
+		present[vw.QueueName+"\x00"+vw.Key] = vw
+	}
+	for k := range m.terminating {
+		if present[k] == nil {
+			delete(m.terminating, k)
+		}
+	}
+	for k, vw := range present {
+		if vw.Terminating != m.terminating[k] {
+			w.failf("C05: worker %s of %s: the scheduler treats it as terminating = %v, but the TerminateWorkers calls made since it registered imply %v", vw.Key, vw.QueueName, vw.Terminating, m.terminating[k])
+		}
+	}
+}
+
+// compareDrainListing compares the drains listed through the public API
+// with the model's. It calls into the scheduler, so it only runs right
+// after a tick at the same instant (every due clean-up has run, the call
+// changes nothing).
+func (m *model) compareDrainListing() {
+	w := m.w
+	seen := map[string]bool{}
+	for _, wk := range w.workers {
+		qn := m.queueNameOf(wk)
+		if seen[qn] {
+			continue
+		}
+		seen[qn] = true
+		if len(m.drains[qn]) == 0 && !m.drainsTouched {
+			continue
+		}
+		resp, err := w.bq.ListDrains(context.Background(), &buildqueuestate.ListDrainsRequest{SizeClassQueueName: w.queueName(wk)})
+		if status.Code(err) == codes.NotFound {
+			// The size class queue is gone, and its drains with it.
+			delete(m.drains, qn)
+			continue
+		}
+		if err != nil {
+			w.failf("C05: ListDrains(%s) failed with %v", qn, err)
+		}
+		got := map[string]bool{}
+		for _, d := range resp.Drains {
+			got[patternKey(d.WorkerIdPattern)] = true
+		}
+		for k := range m.drains[qn] {
+			if !got[k] {
+				w.failf("C05: drain %s was added to %s and not removed, but the scheduler does not list it (listed: %v)", k, qn, got)
+			}
+		}
+		for k := range got {
+			if _, ok := m.drains[qn][k]; !ok {
+				w.failf("C05: the scheduler lists drain %s on %s, which was never added or has been removed", k, qn)
+			}
+		}
+	}
+	m.drainsTouched = false
 }
 
 func (m *model) onTerminate(tc *terminateCall) {
@@ -325,6 +446,11 @@ func (m *model) onTerminate(tc *terminateCall) {
 	}
 	for _, vw := range m.prev.Workers {
 		for _, wk := range m.w.workers {
+			if workerKeyOf(wk) == vw.Key && m.queueNameOf(wk) == vw.QueueName && workerMatches(wk.id, tc.pattern) {
+				// Every registered worker matching the pattern is
+				// terminating from now on, until it is removed.
+				m.terminating[vw.QueueName+"\x00"+vw.Key] = true
+			}
 			if workerKeyOf(wk) == vw.Key && workerMatches(wk.id, tc.pattern) && vw.CurrentTask != nil {
 				if t := m.byOp[vw.CurrentTask.Operations[0].Name]; t != nil {
 					tc.waitsFor = append(tc.waitsFor, terminateWait{task: t, requeues: t.requeues})
@@ -384,6 +510,7 @@ func (m *model) observe() {
 		m.justTicked = true
 		// The cleanups run by that call may have woken up blocked calls.
 		synctest.Wait()
+		m.compareDrainListing()
 	}
 
 	snap, lockFree := w.bq.VerifCheckInvariants()
@@ -532,6 +659,8 @@ func (m *model) observe() {
 		}
 	}
 
+	m.checkOperatorState(snap)
+	m.checkLearnerOutcomes()
 	m.observeStreams(snap, now)
 	m.observeSyncs(snap, now)
 	m.observeTerminates()
@@ -837,7 +966,6 @@ func (m *model) onStreamEnded(s *streamSim, err error, now time.Time) {
 
 func (m *model) observeSyncs(snap *scheduler.VerifSnapshot, now time.Time) {
 	w := m.w
-	var drains map[string][]*buildqueuestate.DrainState
 	for _, wk := range w.workers {
 		res := wk.inFlight
 		if res == nil {
@@ -951,28 +1079,14 @@ func (m *model) observeSyncs(snap *scheduler.VerifSnapshot, now time.Time) {
 					m.label("assignment_background")
 				}
 				m.checkRouting(t, wk, ex, kind)
-				// Drained or terminating workers never receive new tasks.
-				if drains == nil {
-					drains = map[string][]*buildqueuestate.DrainState{}
+				// Drained or terminating workers never receive new tasks
+				// (judged by the operator calls that were made, not by
+				// the scheduler's own bookkeeping of them).
+				if pat, drained := m.modelDrained(wk); drained {
+					w.failf("C05: worker %d received new task %s although drain %v is active on its queue", wk.idx, aid, pat)
 				}
-				qn := m.queueNameOf(wk)
-				if _, ok := drains[qn]; !ok {
-					resp, err := w.bq.ListDrains(context.Background(), &buildqueuestate.ListDrainsRequest{SizeClassQueueName: w.queueName(wk)})
-					if err == nil {
-						drains[qn] = resp.Drains
-					}
-				}
-				for _, d := range drains[qn] {
-					if workerMatches(wk.id, d.WorkerIdPattern) {
-						w.failf("C05: worker %d received new task %s although drain %v is active on its queue", wk.idx, aid, d.WorkerIdPattern)
-					}
-				}
-				if m.prev != nil {
-					for _, pw := range m.prev.Workers {
-						if pw.Key == workerKeyOf(wk) && pw.QueueName == qn && pw.Terminating {
-							w.failf("C05: worker %d received new task %s although it was marked terminating", wk.idx, aid)
-						}
-					}
+				if m.modelTerminating(wk) {
+					w.failf("C05: worker %d received new task %s although it was marked terminating", wk.idx, aid)
 				}
 			} else {
 				t.reissues++
@@ -1112,37 +1226,34 @@ func (m *model) checkWorkConservation(snap *scheduler.VerifSnapshot) {
 	if len(queued) == 0 {
 		return
 	}
-	for _, vw := range snap.Workers {
-		if !vw.Blocked || vw.Terminating {
+	// Every Synchronize call that has not returned at quiescence is a
+	// worker waiting: for work, or (when drained) for its drain to be
+	// removed. Whether it is drained or terminating is decided by the
+	// model, so a wake-up that is lost when a drain is removed shows up
+	// here as well.
+	for _, wk := range w.workers {
+		res := wk.inFlight
+		if res == nil {
 			continue
 		}
-		vt := queued[vw.QueueName]
+		w.mu.Lock()
+		returned := res.returned
+		w.mu.Unlock()
+		if returned {
+			continue
+		}
+		vt := queued[m.queueNameOf(wk)]
 		if vt == nil {
 			continue
 		}
-		// Is the worker drained? Ask the public API.
-		var wk *workerSim
-		for _, x := range w.workers {
-			if workerKeyOf(x) == vw.Key && m.queueNameOf(x) == vw.QueueName {
-				wk = x
-			}
-		}
-		if wk == nil {
+		if _, drained := m.modelDrained(wk); drained {
+			m.label("drained_worker_waits_while_task_queued")
 			continue
 		}
-		resp, err := w.bq.ListDrains(context.Background(), &buildqueuestate.ListDrainsRequest{SizeClassQueueName: w.queueName(wk)})
-		if err != nil {
+		if m.modelTerminating(wk) {
 			continue
 		}
-		drained := false
-		for _, d := range resp.Drains {
-			if workerMatches(wk.id, d.WorkerIdPattern) {
-				drained = true
-			}
-		}
-		if !drained {
-			w.failf("C04/C05: task %s is queued in %s while undrained worker %d of that queue is blocked waiting for work", actionIDOf(vt.DesiredState), vt.QueueName, wk.idx)
-		}
+		w.failf("C04/C05: task %s is queued in %s while undrained worker %d of that queue is blocked waiting for work", actionIDOf(vt.DesiredState), vt.QueueName, wk.idx)
 	}
 }
 
@@ -1200,5 +1311,61 @@ func (m *model) removalNotEarly(op *opModel, now time.Time) {
 	}
 	if !op.removalAt.IsZero() && now.Before(op.removalAt) {
 		m.w.failf("C06: operation %s was removed at %s, before its no-waiter timeout at %s", shortName(op.name), now.Sub(m.startAt), op.removalAt.Sub(m.startAt))
+	}
+}
+
+// checkLearnerOutcomes: C07 "every learner receives exactly one terminal
+// call matching what happened". Every terminal call made in this step is
+// compared with what the history says ended that attempt: a completion
+// reported by the worker that ran it (accepted by the scheduler in this
+// step) gives Succeeded(virtual execution duration) for status OK and exit
+// code 0 and Failed(timed out <=> DEADLINE_EXCEEDED) otherwise; an attempt
+// that ended for any other reason (operator kill, worker or queue gone,
+// retry limit, no waiting clients, no room for a background run) gives
+// Abandoned.
+func (m *model) checkLearnerOutcomes() {
+	w := m.w
+	for _, l := range w.an.learners {
+		if len(l.Terminal) == 0 || l.checked {
+			continue
+		}
+		l.checked = true
+		attempt := map[string]string{"first": "first", "retry": "retry", "background": "bg"}[l.Kind]
+		var t *taskModel
+		for _, x := range m.tasks {
+			if x.actionID == l.ActionID && (x.kind == "bg") == (l.Kind == "background") {
+				t = x
+			}
+		}
+		want := "Abandoned"
+		if t != nil && t.acceptedCompletion != nil && t.acceptedStep == l.TerminalAt && t.acceptedAttempt == attempt {
+			if t.acceptedKind == "ok" {
+				want = "Succeeded"
+			} else {
+				want = "Failed"
+			}
+		}
+		got := l.Terminal[0]
+		if got != want {
+			why := "the attempt did not end with a completion reported by its worker in that step"
+			if want != "Abandoned" {
+				why = fmt.Sprintf("its worker reported completion (%s) in that step", t.acceptedKind)
+			}
+			w.failf("C07: learner %d (%s attempt of %s) received %s in step %d, but %s, which calls for %s", l.ID, l.Kind, l.ActionID, got, l.TerminalAt, why, want)
+		}
+		switch want {
+		case "Succeeded":
+			if d := t.acceptedCompletion.GetResult().GetExecutionMetadata().GetVirtualExecutionDuration().AsDuration(); l.Duration != d {
+				w.failf("C07: learner %d (%s attempt of %s) received Succeeded(%s), but the worker reported a virtual execution duration of %s", l.ID, l.Kind, l.ActionID, l.Duration, d)
+			}
+			m.label("learner_succeeded_matches")
+		case "Failed":
+			if l.TimedOut != (t.acceptedKind == "deadline") {
+				w.failf("C07: learner %d (%s attempt of %s) received Failed(timedOut=%v), but the worker reported %s", l.ID, l.Kind, l.ActionID, l.TimedOut, t.acceptedKind)
+			}
+			m.label("learner_failed_matches")
+		default:
+			m.label("learner_abandoned_matches")
+		}
 	}
 }
